@@ -25,10 +25,25 @@
      the proof goes through the grouped log (one group per segment): a rotation or the creation of the first
      segment appends an empty group, the segment writer appends to the last group, and a whole write opens a
      group only together with a random-access unit (cut condition / first-random-access gate).
+   - the init served carries the current parameters (fMP4 and Low-Latency; c02_init_carries_current_parameters): in
+     every state reachable from Start by successful writes whose video units lie at or after -10 s, for every
+     stream: if no parameter change is pending (m_pending = false) and the stream's open segment, if any, was not
+     opened by a forced rotation, the parameter ids captured by its cached init file are the current parameters
+     (tk_params) of exactly the tracks of the stream, in order.  The proof follows the change through video_params
+     (recorded, left pending or consumed by a random-access unit as paramsChanged), fmp4WriteSample (paramsChanged
+     always ends in a forced rotation of every stream, or - first unit of the track - no stream has an init yet)
+     and the close of the forced segment (init regenerated from the current parameters).  The hypothesis on video
+     units is needed: c02_init_stale_before_minus_10s_refuted is a history, accepted write by write, whose last unit
+     - random access, new parameters, before -10 s - is dropped by fmp4WriteSample after the parameters were
+     recorded and the pending flag consumed, so no forced rotation follows and the init keeps the old parameters
+     (the Go code does the same: muxer_segmenter.go fmp4WriteSample returns nil on dts < 0).
+     c02_init_nonvacuous: a concrete history with a change on a random-access unit (init still old while the forced
+     segment is open, new once it has been closed).  c02_init_exists_once_published: a stream that has published
+     a segment has an init (any history).
    Not theorems (tie + oracle): for MPEG-TS that PAT / PMT open each segment (written by mediacommon's
    writer, outside the model); that the served bytes decode to the model's samples / units. *)
 From Coq Require Import List ZArith Bool.
-From GoHls Require Import Model.Mux Proofs.MuxStream Proofs.MuxLift Proofs.MuxWindow Proofs.MuxHistory Proofs.MuxSamples Proofs.MuxCut Proofs.MuxLog Proofs.MuxLogStep Proofs.MuxGroups Proofs.MuxRAStart Proofs.MuxRAHist Proofs.MuxLogTS Proofs.MuxTSStart.
+From GoHls Require Import Model.Mux Proofs.MuxStream Proofs.MuxLift Proofs.MuxWindow Proofs.MuxHistory Proofs.MuxSamples Proofs.MuxCut Proofs.MuxLog Proofs.MuxLogStep Proofs.MuxGroups Proofs.MuxRAStart Proofs.MuxRAHist Proofs.MuxLogTS Proofs.MuxTSStart Proofs.MuxTimes Proofs.MuxInit Proofs.MuxInitHist.
 Import ListNotations.
 Local Open Scope Z_scope.
 
@@ -161,3 +176,43 @@ Theorem c02_mpegts_segments_start_nonvacuous : exists m0,
         [(0%nat, true, 135000); (1%nat, true, 90000); (0%nat, false, 180000)]].
 Proof. exact ts_ra_example. Qed.
 Print Assumptions c02_mpegts_segments_start_nonvacuous.
+
+(* ---- the init segment served carries the current parameters of exactly the stream's tracks ---- *)
+Theorem c02_init_carries_current_parameters : forall c m0 ops,
+  start c = Ok m0 -> c_variant c <> MPEGTS ->
+  Forall (wf_op (map tk_static (m_tracks m0))) ops -> all_ok m0 ops ->
+  let m := mux_run m0 ops in
+  forall si s ps,
+    nth_error (m_streams m) si = Some s ->
+    m_pending m = false -> (forall g, st_open s = Some g -> sg_forced g = false) -> st_init s = Some ps ->
+    ps = map (fun ti => match nth_error (m_tracks m) ti with Some t => tk_params t | None => 0 end) (st_tracks s).
+Proof. exact init_carries_current_parameters. Qed.
+Print Assumptions c02_init_carries_current_parameters.
+
+(* without the hypothesis on video units the statement is false of the model (and of the code) *)
+Theorem c02_init_stale_before_minus_10s_refuted : exists m0 s ps,
+  start ex_cfg = Ok m0 /\ c_variant ex_cfg <> MPEGTS /\ all_ok m0 bad_ops
+  /\ let m := mux_run m0 bad_ops in
+     nth_error (m_streams m) 0 = Some s
+     /\ m_pending m = false /\ (forall g, st_open s = Some g -> sg_forced g = false) /\ st_init s = Some ps
+     /\ ps = [1]
+     /\ map (fun ti => match nth_error (m_tracks m) ti with Some t => tk_params t | None => 0 end) (st_tracks s) = [2].
+Proof. exact init_stale_before_minus_10s. Qed.
+Print Assumptions c02_init_stale_before_minus_10s_refuted.
+
+Theorem c02_init_nonvacuous : exists m0,
+  start ex_cfg = Ok m0 /\ c_variant ex_cfg <> MPEGTS
+  /\ Forall (wf_op (map tk_static (m_tracks m0))) in_ops /\ all_ok m0 in_ops
+  /\ (let m := mux_run m0 (firstn 9 in_ops) in
+      m_pending m = false /\ init_view m 0 = Some (Some [1], Some true, [2]))
+  /\ (let m := mux_run m0 in_ops in
+      m_pending m = false /\ init_view m 0 = Some (Some [2], Some false, [2])
+      /\ init_view m 1 = Some (Some [2], Some false, [2])).
+Proof. exact init_example. Qed.
+Print Assumptions c02_init_nonvacuous.
+
+Theorem c02_init_exists_once_published : forall c m0 ops si s,
+  start c = Ok m0 -> c_variant c <> MPEGTS ->
+  nth_error (m_streams (mux_run m0 ops)) si = Some s -> published s <> [] -> st_init s <> None.
+Proof. exact init_exists_once_published. Qed.
+Print Assumptions c02_init_exists_once_published.
